@@ -24,7 +24,7 @@ fn judge(rf: &ReplayFile, class: &str, msg: &str, known: &Option<String>) -> Opt
 }
 
 fn same_failure(rf: &ReplayFile, sc: &Scenario, dec: &Option<Vec<simkit::sched::Decision>>) -> Option<(String, Option<String>)> {
-    if rf.class == "stuck" || std::env::var("VERIF_SHRINK_ISOLATE").is_ok() {
+    if rf.class == "stuck" || rf.class == "abort" || std::env::var("VERIF_SHRINK_ISOLATE").is_ok() {
         return same_failure_isolated(rf, sc, dec);
     }
     let out = run_scenario(sc, dec.as_deref());
@@ -87,6 +87,7 @@ fn sub_exprs(e: &Expr) -> Vec<Expr> {
     match e {
         Expr::Const(_) | Expr::Read(_) => vec![],
         Expr::Idx(a, _) | Expr::Mul(a, _) | Expr::Mod(a, _) => vec![(**a).clone()],
+        Expr::Race(n, a) => vec![(**a).clone(), Expr::Read(*n)],
         Expr::Add(a, b) | Expr::Min(a, b) | Expr::Cat(a, b) => {
             vec![(**a).clone(), (**b).clone()]
         }
